@@ -364,6 +364,10 @@ def run_check(mod, tier, seed, replay=None):
     known = load_known()
     violations = []
     known_hits = []
+    if os.environ.get("VERIF_DUMP_PFAILS"):       # debugging aid: every oracle failure of this run, not only the first per site
+        with open(os.environ["VERIF_DUMP_PFAILS"], "w") as f:
+            for site, msg, op, args, real in ctx.pfails:
+                f.write(json.dumps({"site": site, "msg": msg[:300], "op": op}) + "\n")
     # 1. direct property oracle failures on the real code
     seen_sites = set()
     for site, msg, op, args, real in ctx.pfails:
